@@ -22,6 +22,9 @@ def main():
     r.add_argument("path")
     s = sub.add_parser("selftest")
     s.add_argument("args", nargs="*")
+    if len(sys.argv) > 1 and sys.argv[1] == "selftest":
+        from symx import selftest
+        sys.exit(selftest.main(sys.argv[2:]))
     a = ap.parse_args()
     seed = int(os.environ.get("VERIF_SEED", "0") or 0)
     if a.cmd == "check":
